@@ -501,6 +501,7 @@ def rule_deps(ctx):
     c09.rule_a(ctx)
     c15.rule_a(ctx)
     c15.rule_b(ctx)
+    c15.rule_time_cell_fields(ctx)
 
 
 RULES.append(("C01.p", "the mechanisms chronological execution rests on: queue order (C20.a/b), cancelled heads skipped (C09.a), untorn time reads (C15.a/b)", rule_deps))
